@@ -652,6 +652,12 @@ def _run(*, tier, seed, jobs, progress, opts):
         mtasks += [('++', pr, d, 2, None) for pr in c04mt.pairs(core)
                    for d in (False, True)]
         mtasks += [('++', pr, False, 2, None) for pr in c04mt.EXTRA_PAIRS[:6]]
+        # CHECK against a SELECT that claims new/: needs two preemptions
+        # (spread over the workers by first-level deviation)
+        from . import mtmaildir as mtm
+        pr2 = ('SELECT', 'CHECK-holding-new')
+        mtasks += [('++', pr2, False, 2, None, ch) for ch in
+                   mtm.split_prefixes('++', pr2, c04mt.PROGRAMS, 2, 0)]
         # three processes at once (a waiter behind a waiter)
         mtasks += [(layout, t3, False, 1, None) for layout in ('++', 'fs')
                    for t3 in (('APPEND', 'APPEND', 'APPEND'),
